@@ -1567,3 +1567,68 @@ func specKeyIsStr(ref ASTNode, x interface{}) bool {
 	_, isStr := k.(string)
 	return ok && isStr
 }
+
+// ---------------------------------------------------------------------------
+// Lexical classes and delimiter scanning (C14)
+
+// unquoted-string = (A-Za-z_)(A-Za-z0-9_)*
+func specIdentStart(r rune) bool {
+	return r >= 'a' && r <= 'z' || r >= 'A' && r <= 'Z' || r == '_'
+}
+
+func specIdentChar(r rune) bool {
+	return specIdentStart(r) || r >= '0' && r <= '9'
+}
+
+func specSpace(r rune) bool {
+	return r == ' ' || r == '\t' || r == '\n' || r == '\r'
+}
+
+// specScanFrom: byte offset of the first delimiter at or after pos that is not
+// preceded by a backslash (a backslash takes the following character with it),
+// or -1 when the expression ends first.
+func specScanFrom(expr string, pos int, end rune) int {
+	if pos < 0 || pos >= len(expr) {
+		return -1
+	}
+	r := specRuneAt(expr, pos)
+	w := specWidthAt(expr, pos)
+	if r == end {
+		return pos
+	}
+	if r == '\\' && pos+w < len(expr) {
+		return specScanFrom(expr, pos+w+specWidthAt(expr, pos+w), end)
+	}
+	return specScanFrom(expr, pos+w, end)
+}
+
+// specTokenStart: byte offset of the first character of a token's spelling
+// (string and JSON literals record the offset after their opening delimiter).
+func specTokenStart(t token) int {
+	if t.tokenType == tStringLiteral || t.tokenType == tJSONLiteral {
+		return t.position - 1
+	}
+	return t.position
+}
+
+// specRawFrom: the value of a raw string literal whose text starts after the
+// opening quote. Everything up to the closing quote is taken as it is, except
+// that a backslash directly followed by a quote stands for that quote (no other
+// escape exists: a backslash before anything else is kept). idx is the start
+// of the text not yet copied, pos the scan position, buf the text copied so
+// far. Results: the value, the offset after the closing quote, and whether a
+// closing quote exists.
+func specRawFrom(expr string, idx int, pos int, buf string) (string, int, bool) {
+	if pos < 0 || pos >= len(expr) || idx < 0 || idx > pos {
+		return "", 0, false
+	}
+	r := specRuneAt(expr, pos)
+	w := specWidthAt(expr, pos)
+	if r == '\'' {
+		return buf + expr[idx:pos], pos + w, true
+	}
+	if r == '\\' && pos+w < len(expr) && specRuneAt(expr, pos+w) == '\'' {
+		return specRawFrom(expr, pos+w+1, pos+w+1, (buf+expr[idx:pos])+"'")
+	}
+	return specRawFrom(expr, idx, pos+w, buf)
+}
